@@ -37,6 +37,7 @@ EXPLANATION += (" R-C20-7: the index the importer attaches to a variable's value
 EXPLANATION += (' R-C20-8: an exporter attribute that a method sets under a data-dependent condition and another method reads (the dimension of the geometry) is assigned on every path of the setting method (CFG must-pass), so no value of an earlier add_* call survives.')
 EXPLANATION += (' R-C20-9: a list that collects one array per element (groupby group) is not packed into a rectangular numpy array (mixed element types make it ragged).')
 EXPLANATION += (" R-C20-10: a string attribute that the exporter creates from a Python bytes/str value (stored as a variable-length string, returned by h5py as str) is not decoded unconditionally by the importer. R-C20-2 requires the roll-back in every handler of an entity-creating block; R-C20-9 also compares the order classes of a flat array and of the sizes it is split by.")
+EXPLANATION += (" R-C20-11: the exporter reduces the repeated rows of the element-nodal frame to one row per node by selection (groupby().first() and the like), never by an arithmetic aggregation (mean of k equal floats is not the float; integer columns become floats). R-C20-12: the importer computes the membership of mesh ids in a stored set without assume_unique=True (the id levels repeat every id). Both have a built-in example that must match on every run.")
 ASSUMPTIONS = [
     "h5py semantics: group[name] addresses a child, create_group/create_dataset create it, attrs is a key/value store",
     "string formatting with %s inserts exactly one path component",
@@ -432,6 +433,8 @@ def run(ctx):
     ctx.attempt(lambda c: _check_value_order(c, prog, exp_ci, imp_ci))
     ctx.attempt(lambda c: _check_per_call_state(c, prog, exp_ci))
     ctx.attempt(lambda c: _check_ragged(c, prog, exp_ci))
+    ctx.attempt(lambda c: _check_selection_only(c, prog, exp_ci))
+    ctx.attempt(lambda c: _check_membership(c, prog, imp_ci))
 
     # ---------------------------------------------------------------- R-C20-4 read only
     ctx.rule("R-C20-4", floor=2, what="importer opens the file read-only and reaches no write call")
@@ -476,6 +479,86 @@ def _root_name(e):
             e = e.args[0]
         else:
             return e.id if isinstance(e, ast.Name) else None
+
+
+ARITH_AGG = ("mean", "sum", "median", "prod", "std", "var", "sem", "cumsum", "cumprod", "mad", "quantile", "rolling", "ewm")
+SELECT_AGG = ("first", "last", "nth", "head", "tail", "min", "max")
+
+
+def _arithmetic_reductions(fn_node):
+    """arithmetic aggregations of a groupby: <x>.groupby(...).mean() / .agg('mean') / .agg(np.mean) / .transform('sum')"""
+    out = []
+    for c in calls_in(fn_node):
+        if not isinstance(c.func, ast.Attribute):
+            continue
+        below = [x for x in ast.walk(c.func.value) if isinstance(x, ast.Call) and isinstance(x.func, ast.Attribute) and
+                 x.func.attr == "groupby"]
+        if not below:
+            continue
+        if c.func.attr in ARITH_AGG:
+            out.append((c, c.func.attr))
+        elif c.func.attr in ("agg", "aggregate", "transform", "apply") and c.args:
+            a = c.args[0]
+            nm = const_value(a) if isinstance(const_value(a), str) else (call_name(ast.Call(func=a, args=[], keywords=[])) or "")
+            nm = (nm or "").split(".")[-1]
+            if nm in ARITH_AGG:
+                out.append((c, nm))
+    return out
+
+
+def _check_selection_only(ctx, prog, exp_ci):
+    """R-C20-11: the element-nodal mesh frame repeats a nodal value once per element the node belongs to.  The exporter reduces it
+    to one row per node by *selecting* one of the (identical) rows.  An arithmetic aggregation (mean, sum/count, median) is not the
+    identity on k equal floats for k = 3, 5, 6, 7 (one ulp off), and turns integer columns into floats: the stored values are then
+    no longer the values of the mesh and the round trip is not lossless."""
+    ctx.rule("R-C20-11", floor=1, what="the exporter reduces repeated rows by selection (first/last), never by arithmetic aggregation")
+    ex = ast.parse("def f(mesh, c):\n    a = mesh.groupby('node_id').first()\n    b = mesh[c].groupby('node_id').mean()\n"
+                   "    d = mesh.groupby('node_id').agg('sum')\n    return a, b, d\n").body[0]
+    if len(_arithmetic_reductions(ex)) != 2:
+        raise AnalysisError("R-C20-11 built-in example not matched")
+    n = 0
+    g = 0
+    for name, fs in sorted(exp_ci.methods.items()):
+        f = fs[-1]
+        n += 1
+        g += len([c for c in calls_in(f.node) if isinstance(c.func, ast.Attribute) and c.func.attr == "groupby"])
+        for c, agg in _arithmetic_reductions(f.node):
+            ctx.violated(f, c, "%s reduces the repeated rows of the mesh with %s(): k equal floating point values do not average / "
+                         "sum back to the value for every k, and integer columns become floats, so what is written is not the "
+                         "value of the mesh (the round trip is not lossless)" % (name, agg), text="arithmetic reduction %s %s" % (name, agg))
+    if n < 5:
+        raise AnalysisError("exporter methods not found")
+    ctx.holds(exp_ci.key, None, "%d exporter methods, %d groupby reductions: all by selection" % (n, g))
+
+
+def _unsound_membership(fn_node):
+    """membership tests that promise duplicate-free operands (assume_unique=True) on values taken from an index level"""
+    out = []
+    for c in calls_in(fn_node):
+        if (call_name(c) or "").split(".")[-1] in ("isin", "in1d", "intersect1d", "setdiff1d", "setxor1d") and \
+                any(k.arg == "assume_unique" and const_value(k.value) is True for k in c.keywords):
+            out.append(c)
+    return out
+
+
+def _check_membership(ctx, prog, imp_ci):
+    """R-C20-12: the id levels of the mesh index repeat every id (a node once per element, an element once per node).  numpy's
+    set routines with assume_unique=True are only correct for duplicate-free operands - with repeated ids the sort-based code
+    path reports ids as members that are not in the stored set, so a filtered mesh is not the stored set."""
+    ctx.rule("R-C20-12", floor=1, what="membership of mesh ids in a stored set is not computed under assume_unique=True")
+    ex = ast.parse("def f(ids, s):\n    return np.isin(ids, s, assume_unique=True), np.isin(ids, s)\n").body[0]
+    if len(_unsound_membership(ex)) != 1:
+        raise AnalysisError("R-C20-12 built-in example not matched")
+    n = 0
+    for name, fs in sorted(imp_ci.methods.items()):
+        f = fs[-1]
+        n += 1
+        for c in _unsound_membership(f.node):
+            ctx.violated(f, c, "%s: %s with assume_unique=True on ids of the mesh index, which repeats every id: ids outside the "
+                         "stored set are reported as members" % (name, call_name(c)), text="assume_unique " + name)
+    if n < 5:
+        raise AnalysisError("importer methods not found")
+    ctx.holds(imp_ci.key, None, "%d importer methods: no membership test under assume_unique=True" % n)
 
 
 def _check_parallel_order(ctx, prog, exp_ci):
@@ -1482,6 +1565,39 @@ def variants():
     out.append(twin("set name decoded in an if statement", IMP_PATH,
                     set_name_body("label = gset.attrs['MYSETNAME']\nif isinstance(label, bytes):\n"
                                   "    return label.decode('UTF-8')\nreturn label\n")))
+
+    def averaged_nodes(tree):
+        f = find_func(tree, "VMAPExport.add_variable")
+        for c in calls_in(f):
+            if isinstance(c.func, ast.Attribute) and c.func.attr == "first" and isinstance(c.func.value, ast.Call) and \
+                    isinstance(c.func.value.func, ast.Attribute) and c.func.value.func.attr == "groupby":
+                c.func.attr = "mean"
+                return True
+        return False
+    out.append(witness("nodal values averaged over the rows of a node", EXP_PATH, averaged_nodes, "R-C20-11"))
+
+    def last_of_node(tree):
+        f = find_func(tree, "VMAPExport.add_variable")
+        for c in calls_in(f):
+            if isinstance(c.func, ast.Attribute) and c.func.attr == "first" and isinstance(c.func.value, ast.Call) and \
+                    isinstance(c.func.value.func, ast.Attribute) and c.func.value.func.attr == "groupby":
+                c.func.attr = "last"
+                return True
+        return False
+    out.append(twin("nodal values taken from the last row of a node", EXP_PATH, last_of_node))
+
+    def membership(unique):
+        def f_(tree):
+            f = find_func(tree, "VMAPImport.filter_node_set")
+            for st in f.body:
+                if isinstance(st, ast.Assign) and isinstance(st.value, ast.Subscript):
+                    st.value.slice = parse_expr("np.isin(self._mesh.index.get_level_values('node_id'), node_set_ids%s)" %
+                                                (", assume_unique=True" if unique else ""))
+                    return True
+            return False
+        return f_
+    out.append(witness("node filter through np.isin(..., assume_unique=True)", IMP_PATH, membership(True), "R-C20-12"))
+    out.append(twin("node filter through np.isin", IMP_PATH, membership(False)))
 
     def pack_connectivity(tree):
         f = find_func(tree, "VMAPExport._create_elements_dataset")
